@@ -297,6 +297,14 @@ func (g *seqGen) memoHunt(rounds int) {
 			{Fn: "enc", L: int64(l), E: hx(ent), Arena: true, Keep: true},
 			{Fn: "enc", L: int64(l), E: hx(append([]byte{ent[0] ^ 0x80}, ent[1:]...)), Arena: true, Keep: true},
 			{Fn: "enc", L: int64(l2), E: hx(ent), Arena: true, Keep: true},
+			// rejected sentences in spellings that need normalising (each error path), then
+			// seeds where both components need normalising, next to their NFKD spellings
+			{Fn: "chk", L: int64(l), S: hxs(wide + "\u3000" + w[0])},
+			{Fn: "val", L: int64(l), S: hxs(strings.Join(w[:len(w)-1], "\u3000"))},
+			{Fn: "chk", L: int64(l), S: hxs(strings.Join(w[:len(w)-1], "\u3000") + "\u3000\uff51\uff5a\uff58")},
+			{Fn: "seed", S: hxs(wide), P: hxs("\uff50\u00e9"), Keep: true},
+			{Fn: "seed", S: hxs(s), P: hxs("pe\u0301"), Keep: true},
+			{Fn: "seed", S: hxs(wide), P: hxs("\uff50\u00e9"), Keep: true},
 			{Fn: "seed", S: hxs(s), P: hxs("p"), Keep: true},
 			{Fn: "seed", S: hxs(s), P: hxs("p"), Keep: true},
 			{Fn: "seed", S: hxs(s), P: hxs("q"), Keep: true},
